@@ -630,7 +630,37 @@ def sub_digest(args):
     return p.stdout.strip().split('\n')[-1]
 
 
-def check_c18(case, rec, hash_seeds, rng):
+SUB_BATCH = r'''
+import json, sys
+sys.path.insert(0, %r)
+import k7_real
+cases = json.load(open(sys.argv[1]))
+print(json.dumps([k7_real.digest(k7_real.run_session(c))[0] for c in cases]))
+'''
+
+
+def batch_fresh_digests(cases, hash_seeds):
+    """{hash seed: [digest per case]}: every case run in one fresh interpreter per hash seed (the seeds in parallel)"""
+    with tempfile.NamedTemporaryFile('w', suffix='.json', delete=False) as f:
+        json.dump(cases, f)
+        path = f.name
+
+    def one(hs):
+        env = dict(os.environ, PYTHONHASHSEED=str(hs), PYTHONDONTWRITEBYTECODE='1')
+        p = subprocess.run([sys.executable, '-c', SUB_BATCH % os.path.join(VERIF, 'harness'), path], capture_output=True, text=True, env=env, timeout=3000)
+        if p.returncode != 0:
+            from common import Infra
+            raise Infra('sub-process run failed: ' + p.stderr[-400:])
+        return json.loads(p.stdout.strip().split('\n')[-1])
+    try:
+        from multiprocessing.pool import ThreadPool
+        with ThreadPool(min(8, len(hash_seeds))) as tp:
+            return dict(zip(hash_seeds, tp.map(one, hash_seeds)))
+    finally:
+        os.unlink(path)
+
+
+def check_c18(case, rec, hash_seeds, rng, fresh=None):
     import shutil
     from qstrader.data.daily_bar_csv import CSVDailyBarDataSource
     from common import ts
@@ -641,10 +671,14 @@ def check_c18(case, rec, hash_seeds, rng):
         path = f.name
     runs = collections.OrderedDict()
     try:
-        from multiprocessing.pool import ThreadPool
-        with ThreadPool(min(8, len(hash_seeds))) as tp:
-            for hs, dg in zip(hash_seeds, tp.map(sub_digest, [(path, hs) for hs in hash_seeds])):
-                runs['fresh-interpreter-hashseed-%d' % hs] = dg
+        if fresh is not None:
+            for hs in hash_seeds:
+                runs['fresh-interpreter-hashseed-%d' % hs] = fresh[hs]
+        else:
+            from multiprocessing.pool import ThreadPool
+            with ThreadPool(min(8, len(hash_seeds))) as tp:
+                for hs, dg in zip(hash_seeds, tp.map(sub_digest, [(path, hs) for hs in hash_seeds])):
+                    runs['fresh-interpreter-hashseed-%d' % hs] = dg
     finally:
         os.unlink(path)
     d0 = runs['fresh-interpreter-hashseed-%d' % hash_seeds[0]]
@@ -829,8 +863,21 @@ def run_batch(prop, tier, rng, cases, n_corpus):
                         break
             stats['reads_checked'] += len(r.get('reads', []))
         elif prop == 'C18':
-            k = 4 if tier == 'quick' else 8
-            oo, nruns = check_c18(c, r, [rng.randrange(1, 10 ** 6) for _ in range(k)], rng)
+            if i == 0:
+                c18_seeds = [rng.randrange(1, 10 ** 6) for _ in range(6 if tier == 'quick' else 10)]
+                c18_fresh = batch_fresh_digests(cases, c18_seeds)
+            if i < (12 if tier == 'quick' else 10 ** 9):
+                # in-process relations (another session first, repeats, a re-used data source) and the fresh interpreters
+                oo, nruns = check_c18(c, r, c18_seeds, rng, fresh={hs: c18_fresh[hs][i] for hs in c18_seeds})
+            else:
+                # the fresh-interpreter comparison alone
+                d0 = c18_fresh[c18_seeds[0]][i]
+                oo, nruns = [], len(c18_seeds) + 1
+                runs_ = [('fresh-interpreter-hashseed-%d' % hs, c18_fresh[hs][i]) for hs in c18_seeds] + [('first-run-of-this-check', k7_real.digest(r)[0])]
+                for kname, v in runs_:
+                    if v != d0:
+                        oo.append(dict(what='run "%s" differs from the run in a fresh interpreter (digests %s.. vs %s..)' % (kname, v[:10], d0[:10]),
+                                       key='differs:' + kname.split('-hashseed')[0]))
             stats['repeated_runs'] += nruns
         elif prop == 'C16':
             oo, status = check_c16(c, r)
